@@ -122,6 +122,8 @@ fn mats() -> Vec<Matrix3<f32>> {
         Matrix3::identity(),
         Matrix3::new(0.5, 0.0, 0.2, 0.0, 0.5, -0.1, 0.0, 0.0, 1.0),
         Matrix3::new(0.0, -1.3, 0.0, 1.3, 0.0, 0.25, 0.0, 0.0, 1.0),
+        // shear with a non-uniform scale: the linear part of cfg.mat() is not symmetric (a rotation times the y-flip of the screen is)
+        Matrix3::new(0.8, 0.35, 0.1, -0.2, 1.1, 0.05, 0.0, 0.0, 1.0),
     ]
 }
 
@@ -172,7 +174,7 @@ pub fn render2d(thorough: bool) -> Report {
     let mut r = Report::new("render2d");
     run_all(&mut r, thorough, None);
     r.distinct = r.cases;
-    r.space = "7 shapes (circle, box, a CSG of min/max with a sine band, a z-dependent sphere, a half-plane, two with partial functions whose domain boundary crosses tiles: sqrt(x+0.3)-0.6, min(ln(y+0.5), circle)) x image sizes incl. non-square, non-multiples of the tile size and 1x1 x tile-size lists {default, [8], [16,4], [32,8,2], [64,16,4,1], [6,3]} x 3 view transforms x slice heights x {fills allowed, pixel-perfect} x {VM, JIT} x {no thread pool, rayon}; every pixel compared with Context::eval at cfg.mat() * (i, j): inside flag, fill sign and (pixel-perfect or unfilled) value, with a band of 2e-5 relative around zero / the value".into();
+    r.space = "7 shapes (circle, box, a CSG of min/max with a sine band, a z-dependent sphere, a half-plane, two with partial functions whose domain boundary crosses tiles: sqrt(x+0.3)-0.6, min(ln(y+0.5), circle)) x image sizes incl. non-square, non-multiples of the tile size and 1x1 x tile-size lists {default, [8], [16,4], [32,8,2], [64,16,4,1], [6,3]} x 4 view transforms (identity, scale+shift, rotation, shear with non-uniform scale) x slice heights x {fills allowed, pixel-perfect} x {VM, JIT} x {no thread pool, rayon}; every pixel compared with Context::eval at cfg.mat() * (i, j): inside flag, fill sign and (pixel-perfect or unfilled) value, with a band of 2e-5 relative around zero / the value".into();
     r
 }
 
